@@ -40,12 +40,13 @@ _ALL["C16"] = {
     "design_ref": "DESIGN.md §5 C16",
     "technique": _TECH + "in-memory file system behind the syscall primitives with seeded fault injection (undecodable bytes, "
                          "occupied output paths, ENOENT/EACCES/EIO/ENOSPC at chosen bytes, mkdir races, crash and interrupt at "
-                         "chosen syscalls), listing-order schedules, four entry points, stream-twin and baseline-run oracles",
+                         "chosen syscalls, a temporary directory on a second simulated file system with EXDEV on rename), listing-order "
+                         "schedules, left-overs of earlier runs, four entry points, stream-twin and baseline-run oracles",
     "level_text": "Seeded search over (tree, entry point, listing order, buffering knobs, 0-3 faults). Invariants that hold at every "
                   "instant (inputs never touched, nothing written outside the mirror set) are checked over the whole syscall trace, "
                   "including crashed and interrupted runs; finished runs are checked for the one-to-one mapping, reporting, "
                   "entry-point agreement against the stream API fed the recorded line history, and isolation against a real "
-                  "baseline run on the tree without the failing files.",
+                  "baseline run on the tree without the failing files; a file reported as failed needs a cause the plan put there.",
     "level_note": "Trusted: SimFS errno model (fault-free behaviour cross-checked against the real file system by "
                   "`check selftest-simfs`); CLI->kwargs translation table of the harness; an unlistable sub-directory is an "
                   "observation only.",
